@@ -181,7 +181,15 @@ where
             if elig.iter().any(|(_, s)| s.eq(&m_exact) && s.eq(&m_comp_r)) {
                 rep.inc("exactly_on_boundary");
             }
-            let ok = zr[iw].eq(&elig[we].1) || zr[iw].eq(&elig[wc].1);
+            // a different (equally faithful) evaluation order may land on the other side of a boundary that the exact
+            // magnitude misses by less than 1e-13 relative; exactly-on-boundary magnitudes stay strict
+            let nudge = Rat::parse("1e-13").unwrap();
+            let (m_lo, m_hi) = (m_exact.sub(&m_exact.abs().mul(&nudge)), m_exact.add(&m_exact.abs().mul(&nudge)));
+            let on_boundary = elig.iter().any(|(_, s)| s.eq(&m_exact));
+            let (wl, wh) = (pick(&m_lo, &elig), pick(&m_hi, &elig));
+            let ok = zr[iw].eq(&elig[we].1)
+                || zr[iw].eq(&elig[wc].1)
+                || (!on_boundary && (zr[iw].eq(&elig[wl].1) || zr[iw].eq(&elig[wh].1)));
             if !ok {
                 rep.violation(
                     "C05/best-fitting-unit",
